@@ -335,7 +335,7 @@ func scanC18(a *App, m *Mon, sc *StepCtx, rng *rand.Rand, names []string, provs 
 	near := append([]byte(nil), ctxIDs[0]...)
 	near[39] ^= 1
 	ctxIDs = append(ctxIDs, near)
-	batches := []uint64{1, 2, 256, 1 << 32}
+	batches := []uint64{1, 2, 255, 256, 511, 65535, 1 << 32, 1<<32 - 1}
 	type rk struct {
 		ctx   string
 		batch uint64
@@ -365,7 +365,7 @@ func scanC18(a *App, m *Mon, sc *StepCtx, rng *rand.Rand, names []string, provs 
 			}
 		}
 	}
-	qHeights := []int64{1, 256, 257, 65536, 1 << 32}
+	qHeights := []int64{1, 255, 256, 257, 65535, 65536, 1<<32 - 1, 1 << 32}
 	expAt := map[int64][]string{}
 	newAt := map[int64][]string{}
 	for i, cid := range ctxIDs {
@@ -453,7 +453,7 @@ func scanC18(a *App, m *Mon, sc *StepCtx, rng *rand.Rand, names []string, provs 
 		cmp("earnings-of-owner", hexs(o), []string{fees.String()}, []string{fmt.Sprintf("%d%s", 77+idx, denom)})
 	}
 	for _, cid := range ctxIDs {
-		for _, bn := range append(batches, 0, 3, 257) {
+		for _, bn := range append(batches, 0, 3, 254, 257, 512) {
 			key := rk{hexs(cid), bn}
 			keys, _ := collect(k.RequestsIteratorByReqCtx(ctx, cid, bn))
 			var got []string
@@ -475,7 +475,7 @@ func scanC18(a *App, m *Mon, sc *StepCtx, rng *rand.Rand, names []string, provs 
 			cmp("responses-of-batch", fmt.Sprintf("%.8x/%d", []byte(cid), bn), got, append([]string(nil), respOf[key]...))
 		}
 	}
-	for _, h := range append(qHeights, 0, 2, 255) {
+	for _, h := range append(qHeights, 0, 2, 254, 511) {
 		var got []string
 		k.IterateExpiredRequestBatch(ctx, h, func(id tmbytes.HexBytes, _ types.RequestContext) { got = append(got, hexs(id)) })
 		cmp("expiry-queue-of-height", fmt.Sprint(h), got, append([]string(nil), expAt[h]...))
